@@ -404,3 +404,37 @@ def oracle_convergence(w: World, ix: Index | None = None) -> list[dict[str, Any]
 
 def _only(e: dict[str, Any]) -> dict[str, Any]:
     return {k: v for k, v in e.items() if k in ('spec', 'metadata')}
+
+
+def operator_feed(w: Any, inc: str, plural: str = 'kopfexamples') -> list[dict[str, Any]]:
+    """
+    What one operator incarnation was GIVEN about one resource kind, in the order of delivery: the items of every successful
+    listing (type None, at the instant the response was complete) and every watch event of its streams.
+    Entries: {'t', 'type', 'uid', 'rv', 'body', 'src': 'list'|'watch'}.
+    """
+    out: list[tuple[float, int, dict[str, Any]]] = []
+    order = 0
+    for lr in w.requests:
+        if lr.client != inc or lr.kind != 'list' or lr.plural != plural or lr.status != 200 or lr.result_rv is None:
+            continue
+        rv = int(lr.result_rv)
+        for uid, vs in w.history.items():
+            if vs[0]['plural'] != plural:
+                continue
+            upto = [v for v in vs if v['rv'] <= rv]
+            if upto and upto[-1]['type'] != 'DELETED':
+                order += 1
+                out.append((lr.t_done, order, {'t': lr.t_done, 'type': None, 'uid': uid, 'rv': upto[-1]['rv'], 'body': upto[-1]['body'], 'src': 'list'}))
+    for st in w.sim.kube.streams:
+        if st.client.name != inc or st.plural != plural:
+            continue
+        for t, typ, uid, rv in st.delivered:
+            if uid is None or typ not in ('ADDED', 'MODIFIED', 'DELETED'):
+                continue
+            b = next((v['body'] for v in w.history[uid] if str(v['rv']) == str(rv)), None)
+            if b is None:
+                continue
+            order += 1
+            out.append((t, order, {'t': t, 'type': typ, 'uid': uid, 'rv': int(rv), 'body': b, 'src': 'watch'}))
+    out.sort(key=lambda x: (x[0], x[1]))
+    return [e for _, _, e in out]
